@@ -158,6 +158,8 @@ class Machine:
                     base.done(self_)
                     if self_ is drv.sm:
                         drv.cb.append({"e": "done"})
+                        if drv.depth > 0:
+                            drv.stopped_in_iter = True
                 ns["done"] = done
             cls = type("M%d_L%d" % (uid, ly), (cls,), ns)
         self.cls = cls
@@ -205,8 +207,11 @@ class Machine:
         self.emit(self.pending)
         self.pending = None
         self.depth += 1
-        act = self.script.in_state(self, name)
-        if act is not None:
+        # a state function may perform several actions (next_state, done, engage, next_state_now ...) before it returns
+        for _ in range(4):
+            act = self.script.in_state(self, name)
+            if act is None:
+                break
             k = act["e"]
             if k == "ns":
                 self.sm.next_state(self.ref(act["s"]))
@@ -234,6 +239,7 @@ class Machine:
     def run_iteration(self, ev):
         """execute() or on_iteration(): the step is completed by the first state function call"""
         self.pending = ev
+        self.stopped_in_iter = False
         n0 = len(self.steps)
         if ev["e"] == "execute":
             self.sm.execute()
@@ -369,6 +375,16 @@ class RandomSource:
         rng = self.rng
         if name == self.shape["default"]:
             return None
+        self.nth = getattr(self, "nth", 0)
+        if m.steps and m.steps[-1]["in"]["e"] in ("execute", "aiter", "nsnow") and m.steps[-1]["out"].get("cb"):
+            self.nth = 0          # a state function was just entered
+        self.nth += 1
+        if self.nth > 1 and rng.random() < 0.6:
+            return None           # most state functions do at most one thing
+        if getattr(m, "stopped_in_iter", False):
+            # the machine stopped under the running state function: selecting a state now would leave it pending on a
+            # stopped machine (DESIGN 6: outside the explored space; see known finding F8 for what happens there)
+            return {"e": "done"} if rng.random() < 0.2 else None
         r = rng.random()
         if r < 0.22:
             return {"e": "ns", "s": rng.choice(self.nondef)}
